@@ -185,7 +185,12 @@ func (d *Decoder) ReadList(flag int32) (interface{}, error) {
 	tag, err := getTag(d.reader, flag)
 	if err != nil {
 		hlog.Debugf("reading tag err:%v", err)
-		return nil, nil //ignore
+		// the stream ends where a value must start: an error, never a silent null
+		// (a null here would make every enclosing list / map loop spin forever)
+		if err == io.EOF {
+			err = io.ErrUnexpectedEOF
+		}
+		return nil, err
 	}
 
 	if binaryTag(tag) {
